@@ -36,7 +36,7 @@ ASSUMPTIONS = ["Python dicts are modelled as key-sorted association lists: inser
                "xpubs are both ancestors of one key and disagree",
                "named_pubs dictionary keys equal the SEC encoding of the stored point (true for parse and update)",
                "PSBT.parse is exercised with network=None (the default)"]
-BUDGET_S = {"quick": 900, "thorough": 3000}
+BUDGET_S = {"quick": 3000, "thorough": 7200}   # wall clock incl. waiting for the shared coq build lock
 
 NETS = [None, "mainnet", "testnet"]
 
